@@ -600,7 +600,7 @@ impl TrampolineCodegen {
         if let Some(unexpected_import) = self.module.imports.iter().find(|import| {
             import.module == PROVIDER_MODULE_NAME
                 && (!IMPORTS.iter().any(|(orig_name, new_name)| {
-                    *orig_name == import.name || *new_name == import.name
+                    *orig_name == import.name || (!new_name.is_empty() && *new_name == import.name)
                 }) && import.name != "_shopify_function_input_get_utf8_str_addr"
                     && import.name != "_shopify_function_alloc"
                     && import.name != "memory")
